@@ -36,6 +36,10 @@ let () =
             (match v with Some t -> tok_text t | None -> "-") (int_of_z sev)
             (Stdlib.List.length s.rest) (b2i s.eofb) (b2i s.failb)
             (if k = 'R' then int_of_z (read_real_buf_index s0) else 0)
+        | 'T' ->
+          let ((lit, sev), rest) = P21Str.string_read (bytes_of_string data) in
+          let hx = String.concat "" (Stdlib.List.map (fun b -> Printf.sprintf "%02x" (int_of_n b)) lit) in
+          Printf.printf "T %d %s %d %d\n" (if hx = "" then 0 else 1) (if hx = "" then "-" else hx) (int_of_z sev) (Stdlib.List.length rest)
         | 'W' ->
           (* data = "<rbuf>" : the %.15G text produced by the harness *)
           Printf.printf "W %s\n" (string_of_bytes (write_real_text (bytes_of_string data)))
